@@ -49,6 +49,19 @@ def opt_shapes_case(draw, n_inputs=3):
     stmts.append(M.Decl(M.arr(INT, (3,)), "a0"))
     g.declare("s0", M.struct("S0"))
     stmts.append(M.Decl(M.struct("S0"), "s0"))
+    if draw(st.integers(0, 9)) < 3:
+        # whole-aggregate assignment followed by a write through the destination, source observed afterwards
+        if draw(st.booleans()):
+            stmts.append(M.ExprStmt(M.Assign(M.Var("s0", M.struct("S0")), "=", M.Var("gs", M.struct("S0")))))
+            stmts.append(M.ExprStmt(M.Assign(M.Member(M.Var("s0", M.struct("S0")), "f0", INT), "=", M.Lit(7, INT, "7"))))
+            stmts.append(M.ExprStmt(M.Assign(M.Var("g0", INT), "=", M.Bin("+", M.Member(M.Var("gs", M.struct("S0")), "f0", INT),
+                                                                          M.Member(M.Var("s0", M.struct("S0")), "f0", INT)))))
+        else:
+            at = M.arr(INT, (3,))
+            stmts.append(M.ExprStmt(M.Assign(M.Var("a0", at), "=", M.Var("ga", at))))
+            stmts.append(M.ExprStmt(M.Assign(M.Index(M.Var("a0", at), M.Lit(1, INT, "1"), INT), "=", M.Lit(9, INT, "9"))))
+            stmts.append(M.ExprStmt(M.Assign(M.Var("g0", INT), "=", M.Bin("+", M.Index(M.Var("ga", at), M.Lit(1, INT, "1"), INT),
+                                                                          M.Index(M.Var("a0", at), M.Lit(1, INT, "1"), INT)))))
     n = draw(st.integers(1, 5))
     for _ in range(n):
         # target of the store
